@@ -41,6 +41,12 @@ WITNESSES = [
     # F1, as an identity problem: mallory knows bob's password only, and is told she is bob
     ("F1-evaluated-as-other-login", dict(cfg=base_cfg(), t0=T0, creds=[["mallory", "pm", "mallory"], ["bob", "pb", "bob"]],
                                          events=[["A", "bob", "wrong"], ["T", 91 * S], ["A", "mallory", "pb"]])),
+    # equal concatenations: 'ab'/'c' is rejected, then the RIGHT 'a'/'bc' (same sha3 input salt+"abc") must not be answered
+    # from that entry; same for the ':' separator of the key ('x:y'/'z' vs 'x'/':yz')
+    ("concat-key-ab-c", dict(cfg=base_cfg(), t0=T0, creds=[["a", "bc", "a"], ["ab", "zz", "ab"], ["abc", "q", "abc"]],
+                             events=[["A", "ab", "c"], ["T", 1 * S], ["A", "a", "bc"], ["A", "abc", ""], ["A", "a", "bc"]])),
+    ("concat-key-colon", dict(cfg=base_cfg(), t0=T0, creds=[["x", ":yz", "x"], ["x:y", "q", "x:y"]],
+                              events=[["A", "x:y", "z"], ["T", 1 * S], ["A", "x", ":yz"], ["A", "x:y", "z"]])),
     # boundary: entry still valid at (expiry+1) s - 1 ns, expired at (expiry+1) s
     ("boundary-success", dict(cfg=base_cfg(exp_s=2, exp_f=5), t0=T0, creds=[["alice", "pa", "alice"]],
                               events=[["A", "alice", "pa"], ["T", 3 * S - 1], ["A", "alice", "pa"], ["T", 1], ["A", "alice", "pa"]])),
@@ -109,6 +115,16 @@ def gen_case(rng, malformed=False):
         names = names[:2] + rng.sample(["", "@", "a:b", "a:", "中文", "x y", "Z" * 20, ":"], 2)
     ldap_like = rng.random() < 0.25
     tbl = gen_table(rng, cfg, names, ldap_like)
+    concat = None
+    if not malformed and rng.random() < 0.12:
+        # logins and passwords whose concatenations coincide (the digest hashes salt ++ login ++ password), incl. the
+        # ':' that separates login and digest in the failed-cache key
+        fam = rng.choice([(["a", "ab", "abc"], ["bc", "c", "", "b", "abc"]), (["x", "x:y", "x:"], [":yz", "z", "y:z", "yz"])])
+        names = list(fam[0])
+        concat = fam[1]
+        right = {n: rng.choice(concat + ["zz"]) for n in names}
+        tbl = [[X.map_login_spec(cfg, n), right[n], ("u-" + X.map_login_spec(cfg, n)) if ldap_like else X.map_login_spec(cfg, n)]
+               for n in names]
     tbl0 = [list(r) for r in tbl]
     nonmono = rng.random() < 0.08
     n = rng.randint(1, 30)
@@ -124,10 +140,12 @@ def gen_case(rng, malformed=False):
                 ev = list(last)
             else:
                 name = rng.choice(names)
-                login = raw_variants(rng, name) if name.isalpha() and name.isascii() else name
+                login = raw_variants(rng, name) if name.isalpha() and name.isascii() and (concat is None or rng.random() < 0.15) else name
                 row = [x for x in tbl if x[0] == X.map_login_spec(cfg, login)]
                 right = row[0][1] if row else "p" + name[:1]
                 pw = right if rng.random() < 0.5 else rng.choice(["w1", "w2", "", "p" + rng.choice(NAMES)[0], "q"])
+                if concat is not None and rng.random() < 0.8:
+                    pw = right if rng.random() < 0.35 else rng.choice(concat)
                 ev = ["A", login, pw]
             if style == "alternate" and last is not None and rng.random() < 0.5 and len(events) >= 2:
                 prev = [e for e in events if e[0] == "A"]
@@ -177,6 +195,20 @@ def exhaustive_cases(maxlen, with_restore):
                 yield dict(cfg=cfg, t0=T0, creds=t_orig, events=[list(e) for e in seq] + [list(last)])
 
 
+def exhaustive_concat_cases(maxlen):
+    """All histories up to maxlen over login/password pairs with EQUAL concatenations ('ab'+'c' = 'a'+'bc' = 'abc'+'';
+    'x:y'+'z' = 'x'+':yz'), one of each family being the right credentials, x 2 clock jumps x a credential change."""
+    cfg = base_cfg(exp_s=1, exp_f=3)
+    t_orig = [["a", "bc", "a"], ["ab", "zz", "ab"], ["abc", "q", "abc"], ["x", ":yz", "x"], ["x:y", "q", "x:y"]]
+    t_chg = [["a", "zz", "a"], ["ab", "c", "ab"], ["abc", "q", "abc"], ["x", "q", "x"], ["x:y", "z", "x:y"]]
+    attempts = [["A", "ab", "c"], ["A", "a", "bc"], ["A", "abc", ""], ["A", "x:y", "z"], ["A", "x", ":yz"]]
+    alphabet = attempts + [["T", 2 * S], ["T", 4 * S], ["C", t_chg]]
+    for n in range(1, maxlen + 1):
+        for seq in itertools.product(alphabet, repeat=n - 1):
+            for last in attempts:
+                yield dict(cfg=cfg, t0=T0, creds=t_orig, events=[list(e) for e in seq] + [list(last)])
+
+
 def case_key(case):
     return json.dumps([case["cfg"], case["creds"], case["events"]], sort_keys=True)
 
@@ -197,7 +229,7 @@ def nontrivial(case, res):
 def run(ctx):
     ctx.rule = ("history = attempts (1-4 logins, raw spellings with case/domain variants, right/wrong/empty passwords, repeated "
                 "and alternating) interleaved with clock advances (0, +-1 ns / +-1 s around expiry and expiry+1 s measured from an "
-                "earlier attempt, large, a few negative) and credential changes; plus exhaustive short histories over 2 logins x 2 "
+                "earlier attempt, large, a few negative) and credential changes; plus login/password pairs with equal concatenations; exhaustive short histories over 2 logins x 2 "
                 "passwords x 3 jumps x credential change. non-trivial = some mapped login is attempted at least twice; distinct by "
                 "(config, credentials, event list)")
     ctx.assumptions += [
@@ -267,6 +299,8 @@ def run(ctx):
         ctx.case(case_key(case), nontrivial=nt,
                  sample=dict(kind="generated", trace=X.describe(case, res)[:12]) if i < 2 else None)
         ctx.count("kind:malformed-logins" if i >= n_rand else "kind:generated")
+        if any(n in ("ab", "abc", "x:y", "x:") for n, _, _ in case["creds"]):
+            ctx.count("kind:equal-concatenations")
         ctx.count("events:%s" % ("1-5" if len(case["events"]) <= 5 else "6-15" if len(case["events"]) <= 15 else "16-30"))
         for o in res["obs"]:
             ctx.count("outcome:%s%s" % ("raise" if o["out"][0] == "raise" else ("ok" if o["out"][1] else "rejected"),
@@ -287,7 +321,7 @@ def run(ctx):
     # ------------------------------------------------------------ exhaustive short histories
     batch = []
     n_exh = 0
-    for case in exhaustive_cases(ctx.n(4, 5), with_restore=not ctx.quick):
+    for case in itertools.chain(exhaustive_concat_cases(ctx.n(3, 4)), exhaustive_cases(ctx.n(4, 5), with_restore=not ctx.quick)):
         res = X.run_real(case)
         batch.append((case, res))
         n_exh += 1
